@@ -696,6 +696,7 @@ HARNESSES = {
     ),
     "sctp-two-data": Harness("sctp-two-data", h_sctp_two_data, lambda tier: [{"role": r} for r in ("client", "server")], style="NC (structure-aware)", bounds="two DATA chunks with independent symbolic 32-bit TSNs, flags 0..7, stream sequence 0..1", encoded=ENC_SCTP, stubs=STUBS, opts=NC_OPTS, twin="two-data-handled"),
     "sctp-then-valid": Harness("sctp-then-valid", h_sctp_then_valid, lambda tier: [{"role": r, "unordered": u} for r in ("client", "server") for u in (False, True)], style="NC + delivery (structure-aware)", bounds="one complete DATA message with symbolic 32-bit TSN and stream sequence number 2..65535 (ordered or unordered), then two genuine ordered messages", encoded=ENC_SCTP, stubs=STUBS, opts=NC_OPTS, twin="valid-after-bogus-handled"),
+    "recv-next": Harness("recv-next", lambda ctx, **kw: __import__("harness.c04_dtls", fromlist=["h_demux"]).h_demux(ctx, **kw), lambda tier: [{"connected": True, "n": n} for n in (0, 1, 12)], style="NC", bounds="RTCDtlsTransport._recv_next on one datagram of 0, 1 or 12 bytes whose first two bytes are symbolic", encoded=["aiortc.rtcdtlstransport:RTCDtlsTransport._recv_next"], stubs=["SRTP session -> identity recorder; DTLS engine -> recorder; RTP/RTCP handlers -> recorders"], twin="demuxed", opts=NC_OPTS),
     "stray-dcep": Harness("stray-dcep", lambda ctx, **kw: __import__("harness.c13_channel", fromlist=["h_states"]).h_states(ctx, **kw), lambda tier: [{"pre": p, "event": "dcep"} for p in ("connecting", "open", "closing", "closing-requested", "closed")], style="STEP", bounds="one well-formed but unexpected DCEP message (symbolic stream and message byte) reaching a channel in each lifecycle state: its readyState never moves backwards, no second open / close event, nothing escapes", encoded=ENC_SCTP + ["aiortc.rtcsctptransport:RTCSctpTransport._data_channel_receive"], stubs=STUBS, twin="event-processed", opts={"samples": 1}),
     "sctp-init-then-valid": Harness("sctp-init-then-valid", h_sctp_init_then_valid, lambda tier: [{"role": r} for r in ("client", "server")], style="NC + delivery (structure-aware)", bounds="one INIT with symbolic initiate tag, rwnd, stream counts and initial TSN on an ESTABLISHED association, then two genuine ordered messages", encoded=ENC_SCTP, stubs=STUBS, opts=NC_OPTS, twin="valid-after-init-handled"),
     "sctp-sack-gaps": Harness("sctp-sack-gaps", h_sctp_sack_gaps, lambda tier: [{"ngaps": g} for g in ((1, 2) if tier == "quick" else (1, 2, 8, 100))], style="NC (targeted, concrete large count)", bounds="SACK with up to 100 maximal gap blocks (0..65535), first block symbolic", encoded=ENC_SCTP, stubs=STUBS, opts=dict(NC_OPTS, path_timeout_s=20), twin="sack-handled"),
